@@ -60,7 +60,11 @@
 //! a later file legitimately waits for an earlier open file to be sealed. A lost data wake-up shows
 //! up as a logical deadlock (reader parked, writer waiting).
 //! Seeded defect /verif/seeded/C16-a (pool-level wake moved to the put-back branch, so a push that
-//! creates *and* seals a file never wakes a reader parked on the empty pool): SEEDED-RESULT
+//! creates *and* seals a file never wakes a reader parked on the empty pool): missed before this op
+//! existed (`mutrun` exit 0); with it `tools/mutrun seeded/C16-a/patch.diff -- ./check C16 quick` →
+//! **VIOLATION** after 22 cases, shrunk to `{spsc, pushes:[2,4], rot_batches:0, forced:[128]}`
+//! (reader parks on the empty pool, the push creates+seals the file, writer waits for 1 delivery →
+//! logical deadlock, reconfirmed). Unchanged tree: exit 0 on seeds 0–4 and 31–33, no KNOWN-FINDING line.
 //!
 //! **Deviations from DESIGN.md**: quota sized from a dry run rather than analytically; the failing
 //! `TempFileFactory` injector (§3.8c) is not used (the quota reaches the same error paths);
@@ -732,7 +736,7 @@ impl Property for C16 {
             .boxed()
     }
     fn budget(&self, tier: Tier) -> Budget {
-        Budget::new(tier.pick(12_000, 300_000), tier.pick(8, 16)).min_nontrivial(tier.pick(500, 10_000)).case_timeout(300).shrink(3000, 120)
+        Budget::new(tier.pick(6_000, 300_000), tier.pick(8, 16)).min_nontrivial(tier.pick(300, 10_000)).case_timeout(300).shrink(3000, 120)
     }
     fn rule(&self) -> String {
         "generated (spsc|mpsc with 1-3 writer handles, push scripts with 0/1/20/100-row batches, rotation threshold, reader drains or leaves early, \
